@@ -23,7 +23,11 @@ macro_rules! u32_iter_shape {
             let mut b: usize = n32;
             kani::assert(it.len() == n32, "VERIF initial len");
             let mut step = 0;
+            let stop: usize = kani::any(); // the solver also chooses HOW MANY pulls precede the terminal operation
             while step < $k {
+                if step >= stop {
+                    break;
+                }
                 let front: bool = kani::any();
                 if front {
                     let g = it.next();
@@ -72,7 +76,11 @@ macro_rules! u64_iter_shape {
             let mut f: usize = 0;
             let mut b: usize = $l;
             let mut step = 0;
+            let stop: usize = kani::any();
             while step < $k {
+                if step >= stop {
+                    break;
+                }
                 let front: bool = kani::any();
                 if front {
                     let g = it.next();
